@@ -12,7 +12,7 @@ from ..ring import Rat, reset_relations
 from ..symt import InterpError, STensor, Unsupported, to_rat
 from ..tae import STObj, ClassVal as tae_ClassVal
 from .gridsym import fresh_facts, rotation
-from .t1_grid import _guard, apply, as_h, compose, make_interp, teq, tstr
+from .t1_grid import ScenarioUnavailable, _guard, apply, as_h, compose, make_interp, teq, tstr
 from .t11_expv import identity_coords
 
 AXES = ["GRID", "CUBE", "CUBE_CORNERS", "WORLD"]
@@ -59,7 +59,7 @@ class FEnv:
                 g = it.method(g0, "downsample")
                 if tuple(int(x) for x in it.method(g, "size")) != tuple(self.size) or \
                         all(to_rat(x).equals(to_rat(y)) for x, y in zip(g.attrs["_size"].flat(), self.size)):
-                    raise AnalysisError("fractional-size scenario: downsample() of odd sizes no longer keeps a non-integral internal size")
+                    raise ScenarioUnavailable("downsample() of an odd-sized grid does not keep a non-integral internal size: no fractional-size grid can be built")
                 self.grids.append(g)
                 continue
             self.grids.append(it.new(self.Grid, size=self.size, spacing=STensor.from_flat(s, [D]), center=STensor.from_flat(c, [D]),
